@@ -316,3 +316,7 @@ func ParsedSources() []string { return nil }
 func Or(a, b bool) bool  { return a || b }
 func And(a, b bool) bool { return a && b }
 func Not(a bool) bool    { return !a }
+
+// Provide hands a prepared value to an environment stub of the engine
+// (e.g. the result of packages.Load); a no-op natively.
+func Provide(key string, v any) {}
